@@ -65,7 +65,7 @@ def run(ctx):
 
     prev = ctx.vc_filter
     ctx.vc_filter = lambda name, kind: kind != "post" or "cn-prior.mu" in name
-    dsl.verify(ctx, repo, dsl.Registry(), "C19.finite", EM.PYC + ".get_major_cn_prior", EM.h_major_cn_prior, expect_covers=["major=1,accepted", "major=3,accepted", "major=1,rejected"])
+    dsl.verify(ctx, repo, dsl.Registry(), "C19.finite", EM.PYC + ".get_major_cn_prior", EM.h_major_cn_prior, expect_covers=["major=1,accepted", "major=3,accepted", "major=1,rejected", "after-cn-change-genotype"])
     ctx.vc_filter = prev
     ctx.trust(*r.assumed)
     ctx.trust(*r2.assumed)
